@@ -94,6 +94,7 @@ def disassemble(obj, names, sizes):
             raise Inconclusive("llvm-objdump failed: " + p.stderr[-500:])
         cur = None
         addr0 = 0
+        pending = None
         for line in p.stdout.splitlines():
             m = _HDR.match(line)
             if m:
@@ -116,8 +117,9 @@ def disassemble(obj, names, sizes):
                 prefixes.append(parts[0])
                 parts = parts[1].split(None, 1) if len(parts) > 1 else []
             if not parts:
-                # a prefix on its own line belongs to the next instruction; keep as pseudo insn
-                out[cur].append(Insn(addr - addr0, "prefix:" + ",".join(prefixes), [], rest))
+                # objdump prints `lock` on a line of its own: it belongs to the next instruction,
+                # which then starts at the prefix byte
+                pending = (addr - addr0, tuple(prefixes))
                 continue
             mn = parts[0]
             opstr = parts[1] if len(parts) > 1 else ""
@@ -128,7 +130,13 @@ def disassemble(obj, names, sizes):
                     ops = [parse_operand(o, addr0) for o in _split_ops(opstr)] if opstr else []
                 except Inconclusive as e:      # only an error if the instruction is executed
                     ops = [("bad", str(e))]
-            out[cur].append(Insn(addr - addr0, mn, ops, rest, tuple(prefixes)))
+            off = addr - addr0
+            if pending is not None:
+                off, pre = pending
+                prefixes = list(pre) + prefixes
+                rest = " ".join(pre) + " " + rest
+                pending = None
+            out[cur].append(Insn(off, mn, ops, rest, tuple(prefixes)))
     for n in names:
         if n not in out:
             raise Inconclusive("llvm-objdump: no disassembly for " + n)
